@@ -107,6 +107,15 @@ def variants_for(prop: str) -> List[Dict[str, Any]]:
     out.append({'name': 'generated twin: every plain if/else rewritten as `if not c: <else> else: <then>`', 'kind': 'twin', 'generator': 'ifswap'})
     out.append({'name': 'generated twin: a `pass` inserted after every statement of every function', 'kind': 'twin', 'generator': 'padpass'})
     out.append({'name': 'generated twin: every guard clause `if c: ...; return` + rest rewritten as if/else', 'kind': 'twin', 'generator': 'guard2else'})
+    # independent behaviour-preserving refactorings (seeded/_twins): each runs against its own property and against every property whose check
+    # raised an alarm on it when it was first measured
+    tw_index = SEEDED / '_twins' / 'index.json'
+    if tw_index.exists():
+        for tid, info in sorted(json.loads(tw_index.read_text()).items()):
+            if prop == info.get('own') or prop in info.get('alarmed_at_first_measurement', []):
+                pd = SEEDED / '_twins' / tid / 'patch.diff'
+                if pd.exists():
+                    out.append({'name': f'independent refactoring {tid}', 'kind': 'twin', 'patch': str(pd)})
     if SEEDED.is_dir():
         for d in sorted(SEEDED.iterdir()):
             m = d / 'meta.json'
